@@ -22,13 +22,13 @@ import traceback
 from pathlib import Path
 from typing import Any
 
-from . import simexec
+from . import simexec, simfs
 from .core import Outcome, Streams, Violation, canon, run_seed
 
 VERIF_DIR = Path(__file__).resolve().parent.parent
 REPO = os.path.realpath(os.environ.get("VERIF_REPO", "/repo"))
 EVIDENCE_DIR = VERIF_DIR / "evidence"
-REPLAY_DIR = VERIF_DIR / "replays"
+REPLAY_DIR = Path(os.environ.get("VERIF_REPLAY_DIR", VERIF_DIR / "replays"))
 KNOWN_FILE = VERIF_DIR / "known_findings.json"
 DEFAULT_SEED = 20260929
 
@@ -45,6 +45,7 @@ def load_check(prop: str):
 def prepare_environment() -> None:
     """Install seams, then import the library from the tree being verified."""
     simexec.install()
+    simfs.install()
     if sys.path[0] != REPO:
         sys.path.insert(0, REPO)
     import droplets  # noqa: F401
@@ -87,7 +88,7 @@ def _record(index: int, case: dict, out: Outcome, keep_case: bool) -> dict:
         "coverage_keys": out.coverage_keys,
     }
     if keep_case or out.violations:
-        rec["case"] = case
+        rec["case"] = out.narrowed if (out.violations and out.narrowed) else case
     if keep_case:
         rec["log_head"] = out.log_head[:40]
     return rec
@@ -143,12 +144,12 @@ def run_batch(prop, verif_seed, tier, indices, jobs, chunk, sample_idx, wall_cap
 
         def submit_next() -> bool:
             nonlocal exhausted
-            if wall_cap is not None and time.monotonic() - t0 > wall_cap:
-                exhausted = True
-                return False
             try:
                 ch = next(it)
             except StopIteration:
+                return False
+            if wall_cap is not None and time.monotonic() - t0 > wall_cap:
+                exhausted = True
                 return False
             f = pool.submit(_chunk_worker, (prop, verif_seed, tier, ch, sample_idx,
                                             chunk_timeout))
@@ -250,7 +251,7 @@ def minimise(mod, case: dict, key: tuple, max_exec: int = 400, max_s: float = 90
 
 
 def write_replay(mod, case: dict, out: Outcome, v: Violation, verif_seed, index, orig_size):
-    REPLAY_DIR.mkdir(exist_ok=True)
+    REPLAY_DIR.mkdir(parents=True, exist_ok=True)
     body = {
         "property": mod.PROPERTY,
         "oracle": v.oracle,
